@@ -60,7 +60,7 @@ func genC16(seed uint64, run int, tier string) Scenario {
 	sc.ReadSize = pick(r, 1, 7, 64, 1024, 8192, 65536)
 	sc.DataSeed = r.Uint64()
 	sc.SrvSeg = pick(r, "whole", "random")
-	sc.CloseKind = pick(r, "client", "peer")
+	sc.CloseKind = pick(r, "client", "peer", "client-frozen-peer")
 	around := func() int {
 		base := pick(r, 1, sc.ReadSize-1, sc.ReadSize, sc.ReadSize+1, 2*sc.ReadSize, 3*sc.ReadSize+5, between(r, 1, 4000))
 		if base < 1 {
@@ -263,9 +263,14 @@ func runC16(env *Env, s Scenario) {
 			}()
 			time.Sleep(20 * time.Millisecond)
 			t0 = k.Now()
-			if sc.CloseKind == "client" {
+			switch sc.CloseKind {
+			case "client":
 				go func() { _ = tr.Close(true) }()
-			} else {
+			case "client-frozen-peer":
+				// the peer is still connected but neither reads nor answers any more
+				server.Freeze()
+				go func() { _ = tr.Close(true) }()
+			default:
 				close(peerClose)
 			}
 			select {
@@ -273,7 +278,7 @@ func runC16(env *Env, s Scenario) {
 				unblockedAfter = k.Now() - t0
 			case <-time.After(5 * time.Second):
 			}
-			if sc.CloseKind != "client" {
+			if sc.CloseKind == "peer" {
 				_ = tr.Close(true)
 			}
 		})
